@@ -408,6 +408,8 @@ def _worker(conn, pid, name, params, mode, qtimeout, values):
     try:
         import warnings
         warnings.simplefilter("ignore")
+        # the library prints progress messages; the check's stdout carries only its own report
+        sys.stdout = open(os.devnull, "w")
         h = HARNESSES[(pid, name)]
         if mode == "sym":
             res = run_instance_sym(h, params, qtimeout)
